@@ -569,6 +569,8 @@ func stressRound(t failer, round, writes, nSlots, nSeries int, s int64) {
 					switch {
 					case !ok && lo[i] > 0:
 						fail("slot %s missing although %d writes of it completed before the query started (writer finished: %v)", fmtTime(ts), lo[i], phase2)
+					case ok && ev.Known(sigFilterRace) && float64(cnt)/8 == v && cnt >= lo[i] && cnt <= 2*hi:
+						// while the double count of the flush window is a listed finding only "nothing is missing" is checked
 					case ok && (float64(cnt)/8 != v || cnt < lo[i] || cnt > hi):
 						fail("slot %s = %v (= %d writes): %d writes completed before the query started, %d were started when it returned (writer finished: %v; flushes so far %d)",
 							fmtTime(ts), v, cnt, lo[i], hi, phase2, flushes.Load())
